@@ -359,7 +359,7 @@ impl Searcher {
         *nodes_searched += 1;
 
         #[cfg(weechess_verif)]
-        weechess_simrt::probe::node(*nodes_searched);
+        weechess_simrt::probe::node(*nodes_searched, token.id);
 
         // To avoid spending a lot of time waiting for atomic operations,
         // let's avoid checking the cancellation token in the lower leaf nodes
@@ -922,12 +922,16 @@ pub struct SearchArtifact {
 #[derive(Clone)]
 struct CancellationToken {
     cancelled: Arc<AtomicBool>,
+    #[cfg(weechess_verif)]
+    id: u64,
 }
 
 impl CancellationToken {
     fn new() -> (Self, Self) {
         let token = Self {
             cancelled: Arc::new(AtomicBool::new(false)),
+            #[cfg(weechess_verif)]
+            id: weechess_simrt::probe::new_token(),
         };
 
         (token.clone(), token)
@@ -935,7 +939,7 @@ impl CancellationToken {
 
     fn cancel(&self) {
         #[cfg(weechess_verif)]
-        weechess_simrt::probe::cancel_signalled();
+        weechess_simrt::probe::cancel_signalled(self.id);
 
         self.cancelled.store(true, Ordering::Relaxed);
     }
